@@ -576,9 +576,8 @@ def run_history(case, ctx):
                 # floating-point arrays of EQUAL value, and single-precision arithmetic inside a routine (e.g. a float32 grid whose
                 # half-way ties fall the other way) is a different computation, not a different representation of the same one
                 continue
-            # sliced_wasserstein projects with float32 direction vectors by construction (C15): with narrow integer rows the
-            # dot products stay float32, so agreement is to single precision there
-            rel = 1e-5 if o["fn"] == "sliced_wasserstein" else 1e-9
+            # (sliced_wasserstein used to project with float32 direction vectors - repaired, DESIGN 9.3 - and was compared to 1e-5 here)
+            rel = 1e-9
             ok = len(other) == len(base) and all((math.isnan(u) and math.isnan(v)) or close(u, v, max(1.0, abs(u)), rel=rel) for u, v in zip(base, other))
             ctx.require(ok, "representation_dependent",
                         lambda: "%s: result for %s-form inputs differs from %s/%s-form inputs (%d vs %d numbers; first difference %s)"
